@@ -1,4 +1,5 @@
 import Scfg.Basic
+import Scfg.Model.IO
 /-!
 # Line codec for hierarchies (driver glue, not verified)
 
@@ -78,5 +79,43 @@ def printBlk (b : Blk) : String :=
     commaJoin (b.tbl.map fun p => s!"{p.1}={p.2}"), b.rkind, b.header, b.exiting, b.parent]
 
 def printHier (H : Hier) : String := if H.isEmpty then "-" else ";".intercalate (H.map printBlk)
+
+/-! ## Dictionaries (`Scfg/Model/IO.lean`): entries separated by `;`, 13 fields separated by `|`:
+`key|type|kind|contains|header|exiting|parent_region|table|variable|assignment|begin,end|edges|backedges` -/
+
+open Scfg.Model in
+def parseDEnt (s : String) : Except String DEnt :=
+  match s.splitOn "|" with
+  | [key, typ, rkind, contains, header, exiting, parent, tbl, var, asg, pay, edges, backedges] => do
+    let some k := BKind.ofString? typ | throw s!"bad type {typ}"
+    let pay ← (splitList pay).mapM fun p => match p.toInt? with
+      | some i => pure i
+      | none => throw s!"bad payload {p}"
+    let asg ← (splitList asg).mapM fun p => match parseKV p with
+      | some (k, v) => match v.toInt? with
+        | some i => pure (k, i)
+        | none => throw s!"bad asg {p}"
+      | none => throw s!"bad asg {p}"
+    let tbl ← (splitList tbl).mapM fun p => match parseKV p with
+      | some (k, v) => match k.toInt? with
+        | some i => pure (i, v)
+        | none => throw s!"bad tbl {p}"
+      | none => throw s!"bad tbl {p}"
+    pure { key, typ := k, rkind, contains := splitList contains, header, exiting, parentRegion := parent,
+           tbl, var, asg, pay, edges := splitList edges, backedges := splitList backedges }
+  | fs => throw s!"bad dict entry ({fs.length} fields): {s}"
+
+open Scfg.Model in
+def parseDict (s : String) : Except String Dict :=
+  if s.isEmpty || s == "-" then pure [] else (s.splitOn ";").mapM parseDEnt
+
+open Scfg.Model in
+def printDEnt (e : DEnt) : String :=
+  "|".intercalate [e.key, e.typ.toString, e.rkind, commaJoin e.contains, e.header, e.exiting, e.parentRegion,
+    commaJoin (e.tbl.map fun p => s!"{p.1}={p.2}"), e.var, commaJoin (e.asg.map fun p => s!"{p.1}={p.2}"),
+    commaJoin (e.pay.map toString), commaJoin e.edges, commaJoin e.backedges]
+
+open Scfg.Model in
+def printDict (D : Dict) : String := if D.isEmpty then "-" else ";".intercalate (D.map printDEnt)
 
 end Scfg
